@@ -1,7 +1,7 @@
 // Native replay / witness driver for `http_serve::streaming_body` (see serve_witness.rs for the role of these files).
 // Scenario line: id|chunk_size|accept_encoding_hex or -|gzip_level|METHOD|op,op,...
 //   ops: W<hex> write, L<hex> write_all, F flush, P poll the body once (waker A), Q poll with a second waker B,
-//        A abort, X drop the writer, R drop the body; `!a/b` after a result = wake-ups of A / B caused by that op
+//        A abort, X drop the writer, R drop the body, G call http_serve::should_gzip on the request headers (-> g0 / g1); `!a/b` after a result = wake-ups of A / B caused by that op
 // Observation: id|status|hdrs|op results, comma separated:
 //   W -> w<k> or we ; L -> lo / le ; F -> fo / fe ; P -> <lower>:<upper|->:<eos>>D<hex> | E | N | P ; A -> a ; X -> x ; R -> r
 //   |panic hex or -
@@ -77,6 +77,7 @@ fn run_one(line: &str) -> String {
                     Some(w) => match w.flush() { Ok(()) => "fo".into(), Err(_) => "fe".into() },
                     None => "f-".into(),
                 },
+                "G" => format!("g{}", if http_serve::should_gzip(req.headers()) { 1 } else { 0 }),
                 "A" => { if let Some(w) = w.as_mut() { w.abort("scripted abort".into()); } "a".into() }
                 "X" => { w = None; "x".into() }
                 "R" => { body = None; "r".into() }
